@@ -851,7 +851,27 @@ def manager_inputs(case):
     from demeter import BacktestConfig, BacktestData, StrategyConfig
     from demeter._typing import USD
 
-    u = Universe(case, actuator=False, attach=False)
+    pre = case.get("preconfig")
+    u = Universe(case, actuator=False, attach=bool(pre))
+    if pre:
+        # the configured markets already hold positions when they are handed to the manager (opened through a throw-away
+        # broker on the first data row); every strategy starts from its own copy of them
+        from demeter import MarketStatus
+
+        ts = u.idx[0]
+        prices = u.price_frame.loc[ts].copy()
+        prices["USD"] = D(1)
+        for key, mk in u.m.items():
+            if key != "opt":
+                mk.set_market_status(MarketStatus(ts, None), prices)
+        u.prices, u.bar = prices, 0
+        for op in pre:
+            if op[2] in ("opt", "broker"):
+                continue
+            try:
+                run_op(u, op)
+            except Exception:  # noqa: a rejected preparation step simply leaves no position
+                pass
     markets = list(u.m.values())
     data = BacktestData({m.market_info: u.frames[key] for key, m in u.m.items()}, (u.price_frame, USD if case["quote"] == "USD" else u.tok[case["quote"]]))
     for m in markets:
